@@ -131,3 +131,110 @@ Proof.
   set (s := r_apply false _ RInit).
   destruct (r_steps_after_init s n) as [_ H]; [reflexivity|reflexivity|exact H].
 Qed.
+
+(* ---- MeanFieldDynamics.add: the record is n+1 Dynamics objects fed with the projections of the same history ---- *)
+Section MeanFieldDynamicsSpec.
+Variables T F St : Type.
+Variable leb : T -> T -> bool.
+Local Notation mfd_add := (mfd_add T F St leb).
+Local Notation mfd_of := (mfd_of T F St leb).
+
+Definition tf (a : T * F * list St) : T * F := fst a.
+Definition tsi (i : nat) (d : St) (a : T * F * list St) : T * St := (fst (fst a), nth i (snd a) d).
+
+Lemma dyn_of_snoc {S'} (l : list (T * S')) x :
+  dyn_of T S' leb (l ++ [x]) = dyn_add T S' leb (dyn_of T S' leb l) x.
+Proof. unfold dyn_of. rewrite fold_left_app. reflexivity. Qed.
+
+Lemma mfd_of_snoc l a : mfd_of (l ++ [a]) = mfd_add (mfd_of l) a.
+Proof. unfold TimeGrid.mfd_of. rewrite fold_left_app. reflexivity. Qed.
+
+Lemma nth_map_combine {A B C} (f : A * B -> C) (l1 : list A) (l2 : list B) i dc da db :
+  i < length l1 -> length l1 = length l2 ->
+  nth i (map f (combine l1 l2)) dc = f (nth i l1 da, nth i l2 db).
+Proof.
+  revert i l2. induction l1 as [|x l1 IH]; intros i l2 Hi HL; cbn in Hi; [lia|].
+  destruct l2 as [|y l2]; cbn in HL; [lia|]. destruct i as [|i]; cbn; [reflexivity|].
+  apply IH; lia.
+Qed.
+
+Section FixedN.
+Variable n : nat.
+Definition minv (adds : list (T * F * list St)) (m : mfd T F St) : Prop :=
+  fst m = dyn_of T F leb (map tf adds) /\
+  (adds = [] -> snd m = []) /\
+  (adds <> [] -> length (snd m) = n /\
+     forall i d, i < n -> nth i (snd m) ([], []) = dyn_of T St leb (map (tsi i d) adds)).
+
+Lemma minv_step adds m a : minv adds m -> length (snd a) = n -> minv (adds ++ [a]) (mfd_add m a).
+Proof.
+  intros (H1 & H2 & H3) Ha. unfold minv. repeat split.
+  - unfold TimeGrid.mfd_add. cbn [fst]. rewrite map_app. cbn [map]. rewrite dyn_of_snoc, H1. reflexivity.
+  - intros E. destruct adds; discriminate E.
+  - unfold TimeGrid.mfd_add. cbn [snd]. rewrite map_length, combine_length.
+    destruct adds as [|a0 adds].
+    + rewrite (H2 eq_refl). rewrite map_length, Ha. apply Nat.min_id.
+    + destruct H3 as [HL _]; [discriminate|]. destruct (snd m) as [|d0 sys]; cbn [length] in HL |- *; rewrite ?map_length; unfold dyn in *; (rewrite Nat.min_l by lia); lia.
+  - intros i d Hi. unfold TimeGrid.mfd_add. cbn [snd].
+    rewrite map_app. cbn [map]. rewrite dyn_of_snoc.
+    destruct adds as [|a0 adds].
+    + rewrite (H2 eq_refl). cbv iota.
+      rewrite (nth_map_combine (fun ds : dyn T St * St => dyn_add T St leb (fst ds) (fst (fst a), snd ds)) _ (snd a) i ([], []) ([], []) d) by (rewrite ?map_length; lia).
+      cbn [fst snd]. unfold tsi at 2. f_equal.
+      rewrite <- Ha in Hi. clear -Hi. revert i Hi. induction (snd a) as [|s l IH]; intros i Hi; cbn in Hi; [lia|].
+      destruct i; cbn; [reflexivity|]. apply IH. lia.
+    + destruct H3 as [HL HN]; [discriminate|].
+      assert (E : match snd m with [] => map (fun _ => ([], [])) (snd a) | _ :: _ => snd m end = snd m).
+      { destruct (snd m); [|reflexivity]. cbn in HL. lia. }
+      rewrite E. rewrite (nth_map_combine (fun ds : dyn T St * St => dyn_add T St leb (fst ds) (fst (fst a), snd ds)) _ (snd a) i ([], []) ([], []) d) by lia.
+      cbn [fst snd]. rewrite (HN i d Hi). reflexivity.
+Qed.
+
+Theorem mfd_refines (adds : list (T * F * list St)) :
+  Forall (fun a => length (snd a) = n) adds -> minv adds (mfd_of adds).
+Proof.
+  induction adds as [|a adds IH] using rev_ind; intros HF.
+  - unfold minv. cbn. repeat split; intros; congruence.
+  - apply Forall_app in HF. destruct HF as [HF Ha]. inversion Ha; subst.
+    rewrite mfd_of_snoc. apply minv_step; [apply IH; exact HF|assumption].
+Qed.
+End FixedN.
+
+(* the time list of a Dynamics object depends on the added times only *)
+Lemma dyn_times_only {S1 S2} (l1 : list (T * S1)) (l2 : list (T * S2)) :
+  map fst l1 = map fst l2 -> fst (dyn_of T S1 leb l1) = fst (dyn_of T S2 leb l2).
+Proof.
+  revert l2. induction l1 as [|x l1 IH] using rev_ind; intros l2 E.
+  - destruct l2; [reflexivity|discriminate].
+  - destruct l2 as [|y l2 _] using rev_ind.
+    + rewrite map_app in E. destruct (map fst l1); discriminate.
+    + rewrite !map_app in E. cbn [map] in E. apply app_inj_tail in E. destruct E as [E1 E2].
+      rewrite !dyn_of_snoc. unfold TimeGrid.dyn_add. cbn [fst]. rewrite (IH l2 E1), E2. reflexivity.
+Qed.
+End MeanFieldDynamicsSpec.
+
+Theorem mfd_aligned (T F St : Type) (leb : T -> T -> bool) :
+  (forall a b, leb a b = true \/ leb b a = true) ->
+  (forall a b c, leb a b = true -> leb b c = true -> leb a c = true) ->
+  forall (n : nat) (adds : list (T * F * list St)),
+    Forall (fun a => length (snd a) = n) adds -> adds <> [] ->
+    let m := mfd_of T F St leb adds in
+    let times := fst (fst m) in
+    sorted T leb times /\
+    Permutation (combine times (snd (fst m))) (map fst adds) /\
+    length (snd m) = n /\
+    forall i d, i < n ->
+      fst (nth i (snd m) ([], [])) = times /\
+      Permutation (combine times (snd (nth i (snd m) ([], [])))) (map (tsi T F St i d) adds).
+Proof.
+  intros Htot Htr n adds HF Hne. cbv zeta.
+  destruct (mfd_refines T F St leb n adds HF) as (H1 & _ & H3).
+  destruct (H3 Hne) as [HL HN].
+  destruct (dynamics_sorted_aligned T F leb Htot Htr (map (tf T F St) adds)) as (_ & Hs & Hp).
+  rewrite H1. repeat split; [exact Hs|exact Hp|exact HL|..].
+  - rewrite (HN i d H). apply dyn_times_only. rewrite !map_map. reflexivity.
+  - rewrite (HN i d H).
+    destruct (dynamics_sorted_aligned T St leb Htot Htr (map (tsi T F St i d) adds)) as (_ & _ & Hp').
+    rewrite <- (dyn_times_only T leb (map (tsi T F St i d) adds) (map (tf T F St) adds)) by (rewrite !map_map; reflexivity).
+    exact Hp'.
+Qed.
